@@ -7,7 +7,7 @@ import vprop
 from rustcut import Source
 
 PROP = 'C16'
-CONTRACT_FNS = {'parse_file', 'advance_by_all_trivia', 'advance', 'skip_trivia', 'raw_advance', 'current', 'nth', 'is_eof', 'open',
+CONTRACT_FNS = {'common_init', 'parse_file', 'advance_by_all_trivia', 'advance', 'skip_trivia', 'raw_advance', 'current', 'nth', 'is_eof', 'open',
                 'advance_by_trailing_trivia', 'advance_by_non_leading_trivia', 'close', 'token_start', 'token_end'}
 INIT_FNS = {'common_init', 'into_file', 'from_string', 'from_shared_string', 'parse'}   # construct / consume the state
 STATE = r'(events|leading|token_idx|tokens|token_starts)'
@@ -35,6 +35,32 @@ def frame_scan():
     return nfun, bad
 
 
+def lex_contract_link():
+    """The parser unit uses `lex` by contract; that contract must be (part of) what the lexer unit proves. Textual check of the clauses."""
+    norm = lambda t: re.sub(r'\s+', ' ', t)
+    L = norm(open(os.path.join(common.VERIF, 'contracts', 'c16_lexer.vspec'), encoding='utf-8').read())
+    P = norm(open(os.path.join(common.VERIF, 'contracts', 'c16_parser.vspec'), encoding='utf-8').read())
+    m = re.search(r'@@spec lex ret=r (.*?)@@loop lex 0', L)
+    if not m:
+        return ['c16_lexer.vspec: `@@spec lex` not found']
+    proved = m.group(1)
+    bad = []
+    for clause in ['requires blen(content@) <= u32::MAX', 'partition(content@, r.starts@)', 'r.tokens@.len() == r.starts@.len() + 1',
+                   'r.tokens@[r.tokens@.len() - 1] == EOF', 'forall|i: int| 0 <= i < r.starts@.len() ==> r.tokens@[i] != EOF']:
+        if clause not in proved:
+            bad.append('lexer unit no longer proves: ' + clause)
+    for clause in ['forall|i: int, j: int| 0 <= i < j < st.len() ==> st[i] < st[j]', '(st[i] as int) < blen(cs)']:
+        if clause not in L:
+            bad.append('partition() of the lexer unit no longer contains: ' + clause)
+    for clause in ['fn lex(content: &str) -> (r: LexerResult) requires blen(content@) <= u32::MAX, ensures',
+                   'forall|i: int, j: int| 0 <= i < j < r.starts@.len() ==> r.starts@[i] < r.starts@[j]',
+                   'r.tokens@.len() == r.starts@.len() + 1, r.tokens@[r.tokens@.len() - 1] == EOF',
+                   'forall|i: int| 0 <= i < r.starts@.len() ==> r.tokens@[i] != EOF']:
+        if clause not in P:
+            bad.append('parser unit: the assumed contract of lex changed: ' + clause)
+    return bad
+
+
 def _runner_spec():
     return dict(name='c16', deps={'dora-parser': 'dora-parser'}, lock=True, budget_quick_ms=3000, budget_thorough_ms=90000)
 
@@ -48,12 +74,17 @@ def run(tier):
             pre_und.append('frame scan: functions outside the contract set assign the accounting state (the contract set must grow): ' + '; '.join(bad[:5]))
     except Exception as e:
         pre_und.append('frame scan failed: %s' % e)
+    try:
+        for w in lex_contract_link():
+            pre_und.append('contract link lexer -> parser: ' + w)
+    except Exception as e:
+        pre_und.append('contract link check failed: %s' % e)
     units = [dict(vspec=os.path.join(common.VERIF, 'contracts', 'c16_parser.vspec')),
              dict(vspec=os.path.join(common.VERIF, 'contracts', 'c16_lexer.vspec')),
              dict(vspec=os.path.join(common.VERIF, 'contracts', 'c16_linecol.vspec'))]
     assumptions = [
-        'the parser unit takes "the token list ends with EOF and contains EOF nowhere else" as its invariant at construction; the lexer unit proves exactly that as a postcondition of lex() '
-        '(the two units are not linked mechanically: Parser::new is not extracted); fewer than 2^31 tokens',
+        'Parser::common_init is under contract: the accounting invariant holds at construction BECAUSE of the postcondition of lex(), which the parser unit uses by contract only '
+        '(external function with the clauses the lexer unit proves; a textual check on every run keeps the two statements of the contract in step); texts shorter than 2 GiB',
         'lexer unit: the cursor primitives over &str are wrapped (N7) with ASSUMED contracts: s.len() is the UTF-8 length, s[off..].chars().next() / the following character at a boundary offset; '
         'char::is_digit / is_whitespace are uninterpreted classes; is_operator is ASSUMED to accept exactly the 23 characters of its string literal (the literal itself is not read by the verifier); '
         'the `${}` nesting counters (open_braces.last_mut()) and the keyword HashMap are outside the contract; texts are shorter than 4 GiB (lex() refuses longer ones by a panic)',
